@@ -637,6 +637,9 @@ def _nd_contract(nearest):
 nd_linear, nd_nearest = _nd_contract(False), _nd_contract(True)
 
 CONTRACTS = [enclosing, weights, data_interpolator, nd_linear, nd_nearest]
+import contracts.C13_wiring as _W          # dataset- and spectrum-level wiring above the kernels
+import contracts.C13_spectrum as _S
+CONTRACTS = CONTRACTS + _W.CONTRACTS + _S.CONTRACTS
 import contracts.C13_bounded as _B
 BOUNDED = [Bounded("spectrum_interpolation", _B.spectrum_interpolation), Bounded("dataset_axes_rank_1_to_4", _B.dataset_axes,
                    "ranks 1..4, every axis position, passive sizes 1..3 (unequal), pass-through, operands unmodified - through interpolate_dataset_along_axis"),
@@ -651,10 +654,24 @@ TRUSTED = ["targets and grid nodes are finite (no NaN / inf coordinates); infini
            "a single integer index array among slices gathers along that axis in place (numpy advanced indexing with one index array)",
            "the generator _next_point is evaluated eagerly (it only reads indices_1d / weights_1d, which the consuming loop does not write)",
            "np.rint rounds half to even; np.all(axis=...) is the conjunction over the reduced axes",
+           "wiring contracts (C13_wiring.py, C13_spectrum.py): xarray model entries used - iteration over a Dataset yields its data variables in order, `name in ds`, "
+           "ds[name] / ds[name] = value (mutates only that mapping), DataArray.dims / .shape / .values / .coords (the coordinates of its dimensions), "
+           "xarray.Dataset() / Dataset.assign, xarray.DataArray(data=, coords=, dims=), DataArray * DataArray and / (cell-wise, missing if either is), fillna(value)",
+           "wiring contracts: NdInterpolator.interpolate at the call site of dataset.py is the kernel contract verified above for the call's layout (a call outside the "
+           "verified layouts / modes fails `pre...kernel_contract_applies`); for angular data (data_period given) only the result shape is assumed (values: C14 bounded)",
+           "spectrum level: the dataset-level functions are uninterpreted callees whose result has the operand's variables on their dimensions with unconstrained values; "
+           "a quotient by an interpolated energy of exactly 0 is left unspecified (numpy gives NaN / inf there, NaN being filled with the extrapolation value)",
            "instances of rank 2, 3 (every position of the interpolated axis) and 4 (interpolated axis second): every passive axis has length 2 with symbolic "
            "values (value-complete, bounded in that length; equal passive lengths cannot tell the passive axes apart - unequal lengths 1..3 and the other "
            "rank-4 positions are in the bounded tier)"]
 EXPLANATION = ("kernels proved for all grid lengths, target counts and values, ascending and descending: enclosing_points_1d (bracket, uniqueness, clipping), "
                "interpolation_weights_1d (linear / nearest / extrapolating), NdInterpolator._data_interpolator (combination of two neighbours with the NaN rule) and "
                "NdInterpolator.interpolate (ranks 1-3 with the interpolated axis in every position, rank 4 with it second) executed over the real get_data closure of dataset.py: value with slice-level NaN renormalisation, linear when both "
-               "neighbours are present, between the neighbouring values, exact at nodes, missing outside; witnesses go through interpolate_dataset_along_axis on xarray data")
+               "neighbours are present, between the neighbouring values, exact at nodes, missing outside; witnesses go through interpolate_dataset_along_axis on xarray data. "
+               "Wiring above the kernels: interpolate_dataset_along_axis executed over the xarray model with NdInterpolator.interpolate as callee carrying the verified kernel contract - one "
+               "interpolator per variable that has the coordinate over that variable's own values / coordinates / shape, targets along the named coordinate, periodic coordinates and "
+               "periodic data = the defaults (longitude, *direction* any case; period 360) or the caller's, nearest_neighbour in its own slot (ghost-recorded arguments), variables without the "
+               "coordinate passed through as the same object, output coordinate = targets, and the kernel's value clauses re-proved between the caller's data and the returned data set; "
+               "interpolate_dataset_grid = fold of the axis function over the mapping in order; WaveSpectrum / FrequencySpectrum interpolate and interpolate_frequency relative to the "
+               "dataset-level function: own data set (1D: E and E*a1..E*b2) handed over, mode and targets forwarded, missing values of the spectral variables replaced by the extrapolation "
+               "value (default 0), 1D moments = interpolated product / interpolated E, operand unchanged")
